@@ -144,7 +144,8 @@ def gen_c01(rng, fs, i, cfg):
             cand = [k for k, n_ in enumerate(sizes) if n_ > 0]
             if cand:
                 k = rng.choice(cand)
-                op["wide_chunk"] = {"chunk": k, "dtype": rng.choice(["int64", "float64"]),
+                # (same item size, other kind: uint32 holds values an int32 column cannot)
+                op["wide_chunk"] = {"chunk": k, "dtype": rng.choice(["int64", "float64", "uint32", "uint32"]),
                                     "row": rng.randrange(sizes[k]), "value": 2**31 + rng.randint(0, 10**6)}
         return op
     return gen_c15(rng, fs, i, cfg)
@@ -923,7 +924,7 @@ def gen_c02(rng, fs, i, cfg):
 # C11: balancing
 # ===========================================================================
 MAPS = ["builtin", "eager", "pool.map", "pool.imap", "pool.imap_unordered", "pool.imap_unordered", "cli",
-        "thread.map", "thread.imap_unordered"]
+        "thread.map", "thread.imap_unordered", "stdlib.map", "stdlib.imap_unordered"]
 
 
 def gen_balance_options(rng, n, nchroms):
@@ -962,6 +963,9 @@ def gen_c11(rng, fs, i, cfg):
             dead = rng.randrange(n)
             support = [p for p in support if dead not in p]
         vals = [rng.randint(1, 30) for _ in support]
+        if rng.random() < 0.12:
+            # counts that float32 cannot represent (odd values beyond 2**24)
+            vals = [(2**24 + 2 * rng.randint(0, 10**6) + 1) if rng.random() < 0.5 else v for v in vals]
         if rng.random() < 0.2:
             # explicitly stored zeros (valid; they arise from cancellation too): not "non-zero" pixels
             vals = [0 if rng.random() < 0.25 else v for v in vals]
@@ -990,9 +994,9 @@ def gen_c11(rng, fs, i, cfg):
         m = rng.choice(MAPS)
         c = {"map": m, "chunksize": rng.choice(sizes), "policy": rng.choice(
             ["uniform", "reverse", "rotate", "starve", "sticky", "workers-first", "fifo"])}
-        if m.startswith("pool") or m.startswith("thread") or m == "cli":
+        if m.startswith("pool") or m.startswith("thread") or m.startswith("stdlib") or m == "cli":
             c["nproc"] = rng.choice([2, 2, 3, 4])
-        if m.startswith("pool") or m.startswith("thread"):
+        if m.startswith("pool") or m.startswith("thread") or m.startswith("stdlib"):
             c["use_lock"] = rng.random() < 0.3
             c["repeat"] = rng.random() < 0.4
         if m == "cli" and c["chunksize"] < 3 and not small:
